@@ -308,7 +308,7 @@ pub fn malform(r: &mut Rng, e: &mut EchoReq) -> Option<String> {
                 5 => ("page_token", b64("{\"v\":\"v2\",\"page_start\":{\"n\":1,\"s\":\"x\"}}"), "page token of an unknown version"),
                 6 => ("page_token", b64("{\"v\":\"v1\"}"), "page token without page_start"),
                 7 => ("page_token", b64("{\"v\":\"v1\",\"page_start\":{\"n\":\"one\",\"s\":\"x\"}}"), "page token with ill-typed selector"),
-                8 => ("limit", "0".into(), "limit=0"),
+                8 => ("limit", (*r.pick(&["0", "4294967296", "4294967297", "99999999999", "18446744073709551615", "-1"])).into(), "limit is zero or does not fit"),
                 _ => ("limit", "ten".into(), "limit=ten"),
             };
             let scan_keys = ["tag", "min", "ord", "flag"];
